@@ -4,6 +4,7 @@ import ast
 import builtins
 import hashlib
 import importlib
+import io
 import logging
 import os
 import pickle
@@ -20,7 +21,7 @@ _MOD_INFO = {}
 _NONE_PICKLE = pickle.dumps(None, protocol=pickle.HIGHEST_PROTOCOL)
 
 # concurrency / process APIs the model does not cover: their use makes a verdict impossible
-_FOREIGN = ("threading", "concurrent", "subprocess", "asyncio", "signal", "socket", "select", "_thread", "selectors", "mmap")
+_FOREIGN = ("threading", "concurrent", "subprocess", "asyncio", "socket", "select", "_thread", "selectors", "mmap")
 
 
 class SimTime(types.ModuleType):
@@ -90,7 +91,8 @@ def scan_imports(path):
                 pass
     # direct process control through os
     src = open(path).read()
-    for needle in ("os.fork", "os.kill", "os._exit", "os.waitpid", "os.pipe"):
+    for needle in ("os.fork", "os.kill", "os._exit", "os.waitpid", "os.pipe", "os.abort", "signal.signal", "signal.alarm", "signal.setitimer",
+                   "signal.pthread_", "signal.raise_signal", "signal.sigwait", "signal.pause"):
         if needle in src:
             bad.append(needle)
     return sorted(set(bad))
@@ -352,10 +354,13 @@ def run_sim(repo, paths, cfg, decisions=None, keep_trace=True):
     if os.path.exists(out):
         os.unlink(out)
 
+    to_stdout = bool(cfg.get("stdout"))
+    stdout_buf = io.StringIO()
+
     def parent_body(task):
         try:
             try:
-                mod.run_realign(paths["gaf"], paths["gfa"], paths["fasta"], output=out, cores=cfg["cores"])
+                mod.run_realign(paths["gaf"], paths["gfa"], paths["fasta"], output=None if to_stdout else out, cores=cfg["cores"])
                 world.outcome = ["returned", 0]
             except SystemExit as e:
                 c = e.code
@@ -375,6 +380,9 @@ def run_sim(repo, paths, cfg, decisions=None, keep_trace=True):
 
     simmp.WORLD = world
     SIM_TIME._tick = 0.0
+    real_stdout = sys.stdout
+    if to_stdout:
+        sys.stdout = stdout_buf  # run_realign(output=None) writes the GAF to sys.stdout
     main = kernel.add_task("MainProcess", "P", "P", 0, parent_body)
     main.proc = world.parent
     world.parent.task = main
@@ -382,6 +390,7 @@ def run_sim(repo, paths, cfg, decisions=None, keep_trace=True):
         kernel.run(main)
     finally:
         kernel.teardown()
+        sys.stdout = real_stdout
         for f in world.open_files:
             try:
                 if not f.closed:
@@ -398,6 +407,8 @@ def run_sim(repo, paths, cfg, decisions=None, keep_trace=True):
             r.out = f.read()
     except FileNotFoundError:
         r.out = None
+    if to_stdout:
+        r.out = stdout_buf.getvalue()
     r.probes = dict(sorted(world.probes.items()))
     r.fault_log = world.fault_log
     r.trace = kernel.trace if keep_trace else None
